@@ -50,7 +50,7 @@ def path_events(trace_file, keep=None):
     return names
 
 
-def run_tool(tdir, invoke, tool, args, timeout=120, stdin=None, trace=None):
+def run_tool(tdir, invoke, tool, args, timeout=120, stdin=None, trace=None, seed=None):
     if invoke == "multicall":
         argv = [os.path.join(tdir, "bigtools"), tool] + args
     elif invoke == "mixedcase":
@@ -60,6 +60,8 @@ def run_tool(tdir, invoke, tool, args, timeout=120, stdin=None, trace=None):
     env = None
     if trace:
         env = dict(os.environ, BIGTOOLS_VERIF_TRACE=trace)
+        if seed:
+            env["BIGTOOLS_VERIF_DELAY_SEED"] = str(seed)      # seeded pauses at the hook points: schedules a plain run never shows
     try:
         p = subprocess.run(argv, stdout=subprocess.PIPE, stderr=subprocess.PIPE, timeout=timeout, input=stdin, env=env)
         return p.returncode, p.stdout.decode(errors="replace"), p.stderr.decode(errors="replace")
@@ -317,6 +319,88 @@ def milli(txt):
     return (-v if neg else v), 0
 
 
+def pool_trace(trace_file, rc, bad_offsets=()):
+    """hook events `avg.*` of one traced bigwigaverageoverbed run -> the ndjson lines Trace_ChunkPool reads.
+    Pure renaming: thread ids -> 0 (main), 1.. (workers, by first appearance); range start offsets -> 1..K in queue order.
+    `bad_offsets`: byte offsets of malformed BED lines (the ranges holding them must fail)."""
+    evs = []
+    try:
+        for line in open(trace_file):
+            f = line.split()
+            if len(f) == 4 and f[0].startswith("avg."):
+                evs.append((f[0][4:], int(f[1]), int(f[2])))
+        os.remove(trace_file)
+    except OSError:
+        return None
+    chunks = [(a, b) for n, a, b in evs if n == "chunk"]
+    if not chunks:
+        return None
+    idx = {a: i + 1 for i, (a, b) in enumerate(chunks)}
+    tid = {0: 0}
+    out = []
+    for n, a, b in evs:
+        if n == "chunk":
+            continue
+        if n in ("recv", "closed", "got", "send"):
+            t = tid.setdefault(b, len(tid))
+            out.append({"ev": n, "t": t, "c": idx.get(a, 0) if n in ("got", "send") else 0, "e": 0})
+        else:
+            out.append({"ev": n, "t": 0, "c": a, "e": b if n == "emit" else 0})
+    out.append({"ev": "exit", "t": 0, "c": 0 if rc == 0 else 1, "e": 0})
+    fail = sorted({i + 1 for i, (a, b) in enumerate(chunks) for o in bad_offsets if a <= o < b})
+    head = {"ev": "header", "t": 0, "c": 0, "e": 0, "k": len(chunks), "w": max(len(tid) - 1, 0), "fail": fail}
+    return [head] + out
+
+
+def validate_pool_traces(run, traced, label="chunk_pool_trace_validation", min_traces=5):
+    """implementation -> spec: each traced -t N run of the real tool against ChunkPool.tla (Trace_ChunkPool)"""
+    from concurrent.futures import ThreadPoolExecutor
+    jobs = []
+    for i, (desc, lines) in enumerate(traced):
+        path = os.path.join(run.wd, "pool_%d.ndjson" % i)
+        with open(path, "w") as f:
+            for e in lines:
+                f.write(json.dumps(e) + "\n")
+        jobs.append((i, path, desc, lines))
+
+    def one(j):
+        i, path, desc, lines = j
+        for attempt in range(3):
+            r = tlc("Trace_ChunkPool", "Trace_ChunkPool.cfg", os.path.join(run.wd, "tlc_pool_%d_%d" % (i, attempt)), env={"TRACE": path}, workers=1, timeout=600,
+                    xmx="1g", dfs=True, collect_replays=False)
+            if r.violation or any(x.startswith('<<"ACCEPTED"') or x.startswith('<<"REJECTED"') for x in r.prints):
+                break
+            time.sleep(1 + attempt)
+        return j, r
+    with ThreadPoolExecutor(max_workers=max(2, NCPU // 2)) as ex:
+        res = list(ex.map(one, jobs))
+    acc, rej, states, helped, waited, failed, kmax, wmax = 0, [], 0, 0, 0, 0, 0, 0
+    for (i, path, desc, lines), r in res:
+        states += r.generated
+        if r.violation and ("Invariant" in r.violation or "violated" in r.violation):
+            run.violation("C17: an invariant of ChunkPool.tla (Ordered / ExactlyOnce / WaitSafe / Outcome) is violated on an OBSERVED schedule of bigwigaverageoverbed: %s" % json.dumps(desc),
+                          {"kind": "pool-trace", "config": desc, "trace": lines[:200], "tlc": r.violation[:1500]})
+            continue
+        if any(x.startswith('<<"ACCEPTED"') for x in r.prints):
+            acc += 1
+            helped += 1 if any(e["ev"] == "got" and e["t"] == 0 for e in lines) else 0
+            waited += 1 if any(e["ev"] == "wait" for e in lines) else 0
+            failed += 1 if lines[0]["fail"] else 0
+            kmax, wmax = max(kmax, lines[0]["k"]), max(wmax, lines[0]["w"])
+        elif any(x.startswith('<<"REJECTED"') for x in r.prints):
+            h = int([x for x in r.prints if x.startswith('<<"REJECTED"')][0].split(",")[1].strip(" >"))
+            rej.append({"config": desc, "header": lines[0], "matched_events": max(0, h - 2), "next_event": lines[h - 1] if 0 < h - 1 < len(lines) else None})
+        else:
+            raise ToolError("chunk pool trace validation gave no verdict:\n" + r.out[-2000:])
+    run.cov[label] = {"runs_traced": len(traced), "accepted": acc, "rejected": len(rej), "runs_where_main_helped": helped, "runs_where_main_blocked": waited,
+                      "runs_with_a_failing_range": failed, "max_ranges": kmax, "max_workers": wmax, "tlc_states": states, "rejections": rej[:5]}
+    run.cov["states"] += states
+    run.cov["traces_validated_against_impl"] += acc
+    if len(traced) < min_traces:
+        raise ToolError("vacuity: %s too thin (%d traces)" % (label, len(traced)))
+    return rej
+
+
 def make_bigwig(tdir, d, tag, items, size=None):
     """bigWig with integer values written by the real CLI (plumbing for C17 / C15)"""
     nch = max([it[0] for it in items] + [1])
@@ -362,7 +446,11 @@ def c17_case(tdir, d, k, b):
     for stale in (out, out + ".t1", out + ".v", out + ".vn"):       # longer files from "an earlier run" are already there
         with open(stale, "wb") as f:
             f.write(b"stale\t1\t1\t1.000\t1.000\t1.000\n" * 5000)
-    rc, _, err = run_tool(tdir, "own", "bigwigaverageoverbed", args)
+    # every few multi-threaded runs: recorded at the hook points of the chunk pool (seeded pauses), validated against ChunkPool.tla
+    traced = b["threads"] > 1 and k % int(os.environ.get("C17_TRACE_EVERY", "4")) == 0
+    trf = os.path.join(d, "tr_%s.txt" % tag)
+    rc, _, err = run_tool(tdir, "own", "bigwigaverageoverbed", args, trace=trf if traced else None, seed=(k * 7919 + 13) if traced and k % 8 else None)
+    pool = pool_trace(trf, rc) if traced else None
     raw = open(out, "rb").read() if os.path.exists(out) else b""
     rows, parsed = [], 1
     try:
@@ -434,7 +522,7 @@ def c17_case(tdir, d, k, b):
         except OSError:
             pass
     base = {k2: b[k2] for k2 in ("ds", "items", "regions", "name", "minmax", "threads")}
-    return [dict(base, tool="average", obs={"rc": rc, "parsed": parsed, "rows": rows, "same_as_t1": 1 if (rc1 == 0 and raw == raw1) else 0, "err": err[-200:]}),
+    return [dict(base, tool="average", pool=pool, obs={"rc": rc, "parsed": parsed, "rows": rows, "same_as_t1": 1 if (rc1 == 0 and raw == raw1) else 0, "err": err[-200:]}),
             dict(base, tool="values", obs={"rc": rcv, "parsed": vparsed, "vrows": vrows, "err": errv[-200:]}),
             dict(base, tool="values", named=1, obs={"rc": rcn, "parsed": nparsed, "vrows": nrows, "err": errn[-200:]})]
 
@@ -471,6 +559,61 @@ def c17_main():
         b["bwpath"] = os.path.join(d, "ds%d.bw" % b["ds"])
     res = run_parallel(lambda kb: c17_case(tdir, d, kb[0], kb[1]), list(enumerate(beh)))
     obs = [o for pair in res for o in pair]
+    # design level: ChunkPool.tla - every interleaving of K ranges, W workers and the helping main thread, for every failure pattern
+    # of the configurations below: Ordered, ExactlyOnce, WaitSafe, Outcome, NoSkippedFailure and termination under weak fairness
+    for cfgname in ["ChunkPool_a.cfg", "ChunkPool_b.cfg", "ChunkPool_c.cfg", "ChunkPool_d.cfg", "ChunkPool_e.cfg", "ChunkPool_f.cfg", "ChunkPool_g.cfg"] + (["ChunkPool_t.cfg"] if run.thorough else []):
+        rr = tlc("ChunkPool", cfgname, os.path.join(run.wd, "pool_" + cfgname[:-4]), workers=4, timeout=1800, collect_replays=False)
+        tlc_must_pass(rr, "ChunkPool.tla (%s)" % cfgname)
+        run.add_tlc(cfgname[:-4], rr)
+    # the chunk pool as the real tool ran it (implementation -> ChunkPool.tla)
+    traced = []
+    for o in obs:
+        pl = o.pop("pool", None)
+        if pl:
+            traced.append(({"threads": o["threads"], "regions": len(o["regions"]), "name": o["name"], "ds": o["ds"]}, pl))
+    # ... and its error path: one malformed line somewhere in a 40-line BED file; the range holding it fails, the run must end with an error
+    rg = random.Random(run.seed + 17)
+    for j in range(24 if run.thorough else 8):
+        b0 = next(b for b in beh if len(b["regions"]) >= 30)
+        bed = os.path.join(d, "bad_%d.bed" % j)
+        badline = rg.randint(1, len(b0["regions"]))
+        off, bad_off = 0, []
+        with open(bed, "w") as f:
+            for i, r_ in enumerate(b0["regions"], 1):
+                line = "%s\t%d\t%d\tr%d\tx%d\n" % (chrom_name(r_[0]), r_[1], r_[2], i, i)
+                if i == badline:
+                    line = "%s\tnotanumber\t%d\tr%d\tx%d\n" % (chrom_name(r_[0]), r_[2], i, i)
+                    bad_off.append(off)
+                f.write(line)
+                off += len(line)
+        th = rg.choice([2, 3, 4, 8, 16])
+        trf = os.path.join(d, "trbad_%d.txt" % j)
+        rc, _, err = run_tool(tdir, "own", "bigwigaverageoverbed", [b0["bwpath"], bed, os.path.join(d, "bad_%d.out" % j), "-t", str(th)], trace=trf, seed=rg.randint(1, 10 ** 6) if j % 3 else None)
+        pl = pool_trace(trf, rc, bad_off)
+        if pl:
+            traced.append(({"threads": th, "regions": len(b0["regions"]), "malformed_line": badline, "rc": rc}, pl))
+    corrupt = os.environ.get("C17_POOL_CORRUPT")
+    if corrupt:
+        # binding self-test (see DESIGN): damage ONE recorded run; the validation must reject exactly that one
+        if False:
+            pass
+        elif corrupt == "swap-emit":
+            desc, pl = next(x for x in traced if sum(1 for e in x[1] if e["ev"] == "emit") >= 2)
+            em = [e for e in pl if e["ev"] == "emit"]
+            em[0]["c"], em[1]["c"] = em[1]["c"], em[0]["c"]
+        elif corrupt == "twice":
+            desc, pl = next(x for x in traced if x[1][0]["k"] >= 2 and x[1][0]["w"] >= 2)
+            g = next(e for e in pl if e["ev"] == "got" and e["t"] > 0)
+            other = next(e for e in pl if e["ev"] == "got" and e["t"] not in (0, g["t"]))
+            other["c"] = g["c"]            # two threads claim the same range
+        elif corrupt == "exit-ok":
+            desc, pl = next(x for x in traced if x[1][0]["fail"])
+            pl[-1]["c"] = 0                # a run that met a failing range "exits 0"
+        log("[C17] CORRUPTED one recorded run (%s): %s" % (corrupt, json.dumps(desc)))
+    rej = validate_pool_traces(run, traced)
+    run.drift += len(rej)
+    for x in rej[:3]:
+        log("[C17] MODEL-DRIFT detail: observed schedule of the chunk pool not explained by ChunkPool.tla: %s" % json.dumps(x)[:500])
     # library level: stats_for_bed_item / bigwig_average_over_bed through the harness
     lib = run_harness("stats", [{"items": b["items"], "regions": b["regions"], "minmax": 1, "name": b["name"], "ds": b["ds"], "threads": 0} for b in beh[::5]], run.wd)
     for o in lib:
